@@ -6,9 +6,12 @@ Leg M   : TLC enumerates every schedule / host list within the bounds (MC_Alloca
 Leg S2C : every TLC input state becomes real track.Task / track.Parallel / track.Operation objects and is run through the
           real Allocator resp. calculate_worker_assignments; schedules "left empty by filters" are produced by running the
           real TaskFilterTrackProcessor on TLC-generated schedules (never hand-built).
+          Every TLC-enumerated host / core / client layout (and a sample of the TLC schedules on seeded layouts) is also run
+          through the real Driver.prepare_benchmark + Driver.start_benchmark with a recording driver actor: which workers
+          are created where, and the client ids of the allocation rows in every StartWorker at the time it is sent.
 Leg C2S : every recorded result (also seeded random larger shapes: <= 6 elements, <= 64 clients, <= 8 hosts) is validated
-          by TLC against TraceAllocator.tla: L1 = the C02 clauses on the recorded matrices / assignments, L2 = equality
-          with the transcription.
+          by TLC against TraceAllocator.tla: L1 = the C02 clauses on the recorded matrices / assignments / StartWorker
+          contents, L2 = equality with the transcription.
 """
 import json
 import os
@@ -37,6 +40,22 @@ def assign_item(tid, hosts, n, l2=True):
     it = {"id": tid, "kind": "assign", "hosts": hosts, "n": n, "l2": l2, "origin": {"src": "direct"}}
     try:
         it["a"] = rs.observe_assign(hosts, n)
+    except tlc.MachineryError:
+        raise
+    except Exception as ex:  # pylint: disable=broad-except
+        it["crash"] = str(ex) if isinstance(ex, rs.ObservedCrash) else "%s: %s" % (type(ex).__name__, ex)
+    return it
+
+
+def _leaf(n):
+    return {"k": "task", "name": "t", "type": "bulk", "tags": [], "clients": n, "cp": False, "acp": False}
+
+
+def start_item(tid, hosts, s, origin, l2=True):
+    """Runs the real Driver.start_benchmark for load-driver hosts `hosts` and the written schedule s."""
+    it = {"id": tid, "kind": "start", "hosts": hosts, "sched": s, "l2": l2, "origin": origin}
+    try:
+        it.update(rs.observe_start(hosts, rs.build_schedule(s)))
     except tlc.MachineryError:
         raise
     except Exception as ex:  # pylint: disable=broad-except
@@ -79,7 +98,7 @@ def _sig(it, clauses):
     return sig
 
 
-def random_items(seed, n_alloc, n_assign):
+def random_items(seed, n_alloc, n_assign, n_start):
     rnd = random.Random(seed)
     items = []
     for i in range(n_alloc):
@@ -93,6 +112,15 @@ def random_items(seed, n_alloc, n_assign):
     for i in range(n_assign):
         hosts = [{"host": "10.0.0.%d" % h, "cores": rnd.choice([1, 2, 3, 4, 8, 16, 32, 64])} for h in range(rnd.randint(1, 8))]
         items.append(assign_item("rw%d" % i, hosts, rnd.randint(1, 64)))
+    for i in range(n_start):
+        if i % 5 == 0:
+            hosts = [{"host": "localhost", "cores": rnd.choice([1, 2, 4, 8, 16])}]
+        else:
+            uniform = rnd.choice([1, 2, 3, 4, 8, 16])
+            hosts = [{"host": "10.0.0.%d" % h, "cores": uniform if i % 2 else rnd.choice([1, 2, 3, 4, 8, 16])} for h in range(rnd.randint(1, 8))]
+        big = i % 4 == 0
+        s = rs.random_schedule(rnd, max_elements=4, max_clients=64 if big else 12, max_par=3) if i % 2 else [_leaf(rnd.randint(1, 64))]
+        items.append(start_item("rs%d" % i, hosts, s, {"src": "start"}))
     return items
 
 
@@ -110,6 +138,18 @@ CANARIES = [
         "clients": 2,
         "walk": "fail",
     },
+    {
+        # a ClientAllocations container that is only reset per host: the second worker also gets the first worker's rows
+        "id": "canary3",
+        "kind": "start",
+        "l2": False,
+        "hosts": [{"host": "h", "cores": 2}],
+        "n": 3,
+        "a": [{"host": "h", "workers": [[0, 1], [2]]}],
+        "created": [{"wid": 0, "host": "h"}, {"wid": 1, "host": "h"}],
+        "sent": [{"wid": 0, "host": "h", "rows": [0, 1], "rowok": True, "ctx": [0, 1]}, {"wid": 1, "host": "h", "rows": [0, 1, 2], "rowok": True, "ctx": [2]}],
+        "cpw": [0, 0, 1],
+    },
     {"id": "canary2", "kind": "assign", "l2": False, "hosts": [{"host": "h", "cores": 2}], "n": 4, "a": [{"host": "h", "workers": [[0, 2, 1], []]}]},
 ]
 
@@ -117,6 +157,8 @@ CANARIES = [
 def _case_of(it):
     if it["kind"] == "alloc":
         return {"kind": "alloc", "s": it["s"], "origin": it["origin"]}
+    if it["kind"] == "start":
+        return {"kind": "start", "hosts": it["hosts"], "s": it["sched"], "origin": it["origin"]}
     return {"kind": "assign", "hosts": it["hosts"], "n": it["n"], "origin": it["origin"]}
 
 
@@ -126,12 +168,16 @@ def validate(items, out, name="c02trace"):
     ok = [it for it in items if "crash" not in it]
     bad = [(it, ["NoResult"]) for it in crashed]
     index = {it["id"]: it for it in ok}
-    payload = [{k: v for k, v in it.items() if k not in ("origin", "progress")} for it in ok]
+    payload = [{k: v for k, v in it.items() if k not in ("origin", "progress", "sched")} for it in ok]
     if any(len(it["id"]) > 12 for it in payload):
         raise tlc.MachineryError("trace ids must stay short (TLC wraps long verdict lines)")
     verdicts = tracecheck.validate("Allocator", "TraceAllocator", "TraceAllocator.cfg", payload + CANARIES, name=name, chunk=None, timeout=1500)
-    got = (sorted({c for _, cl in verdicts.l1.pop("canary1", []) for c in cl}), sorted({c for _, cl in verdicts.l1.pop("canary2", []) for c in cl}))
-    if got != (["DriverWalksEveryStep", "EntriesAreElements", "IndicesExactlyOnce", "OneEntryPerStep"], ["BalancedOnHost", "ContiguousRanges", "ExactPartition"]):
+    got = tuple(sorted({c for _, cl in verdicts.l1.pop(cid, []) for c in cl}) for cid in ("canary1", "canary2", "canary3"))
+    if got != (
+        ["DriverWalksEveryStep", "EntriesAreElements", "IndicesExactlyOnce", "OneEntryPerStep"],
+        ["BalancedOnHost", "ContiguousRanges", "ExactPartition"],
+        ["RowsPartitionClients", "WorkerGetsAssignedClients"],
+    ):
         raise tlc.MachineryError("trace validation lost verdicts: the known-bad canary items were reported as %s" % (got,))
     if out is not None:
         out.traces_validated += verdicts.accepted(len(ok))
@@ -147,12 +193,16 @@ def run(ctx, out):
         "case = a schedule (sequence of leaf tasks / parallel elements with clients, cap, completed-by) or a (host list with cores, client count); "
         "distinct by hash of the input; non-trivial = schedule with at least one parallel element or two elements / more than one worker. "
         "Sources: every input state of MC_Allocator.tla (S2C, exhaustive within the bounds), the same schedules after the real task filter, "
-        "seeded random larger shapes (<= 6 elements, <= 64 clients, <= 8 hosts)."
+        "seeded random larger shapes (<= 6 elements, <= 64 clients, <= 8 hosts). 'start' cases = the real Driver.start_benchmark on a host layout and a schedule "
+        "(every TLC layout with a one-task schedule of n clients, every 10th TLC schedule on a seeded layout, seeded random ones)."
     )
     out.assumptions = [
         "task names are unique within a schedule (the track loader rejects duplicates); every task and every parallel cap has clients >= 1; every host has >= 1 core; at least one host",
         "the allocation matrix, join points and progress entries are read from the attributes of the real objects (JoinPoint.id, TaskAllocation.client_index_in_task, ...)",
         "a schedule element without tasks only arises from a task filter (the loader's schema requires at least one task in a parallel)",
+        "Driver.start_benchmark is observed through a recording stand-in for DriverActor (create_client / start_worker calls, contents snapshotted at call time as the actor "
+        "system serialises a message when it is sent); Driver.prepare_benchmark knows one core count for all hosts, for layouts with different core counts "
+        "Driver.load_driver_hosts is set before start_benchmark; host names are not resolved (net.resolve patched to the identity)",
         "'exactly as many clients as it requests' is read as in the statement's parenthesis: every client index of the task exactly once (an over-committed parallel gives one physical client several of them)",
     ]
     cfg = "Allocator.quick.cfg" if ctx.quick else "Allocator.thorough.cfg"
@@ -175,7 +225,7 @@ def run(ctx, out):
     if 2 * len(inputs) != res.distinct:
         raise tlc.MachineryError("dump has %d input states, TLC reported %d states" % (len(inputs), res.distinct))
     step = 3 if ctx.quick else 4
-    n_filt = n_empty = n_sched = 0
+    n_filt = n_empty = n_sched = n_start = 0
     batch = 40000
     for b0 in range(0, len(inputs), batch):
         items = []
@@ -191,6 +241,14 @@ def run(ctx, out):
                 out.add_case(("alloc", s), nontrivial=len(s) > 1 or any(el["k"] == "par" for el in s))
                 if s:
                     n_sched += 1
+                    if n_sched % 10 == (ctx.seed + 5) % 10:
+                        # this schedule's allocation rows through the real Driver.start_benchmark on a seeded host layout
+                        nh = rnd.randint(1, 3)
+                        uniform = rnd.randint(1, 4)
+                        hosts = [{"host": "h%d" % (h + 1), "cores": uniform if n_sched % 20 < 10 else rnd.randint(1, 4)} for h in range(nh)]
+                        items.append(start_item("v%d" % n, hosts, s, {"src": "start"}))
+                        n_start += 1
+                        out.add_case(("start", hosts, s))
                     if n_sched % step == ctx.seed % step:
                         # "elements left empty by filters": the schedule after the real TaskFilterTrackProcessor
                         fit = filtered_item("f%d" % n, s, rnd)
@@ -202,6 +260,10 @@ def run(ctx, out):
             else:
                 items.append(assign_item("s%d" % n, inp["hosts"], inp["n"]))
                 out.add_case(("assign", inp["hosts"], inp["n"]), nontrivial=sum(h["cores"] for h in inp["hosts"]) > 1)
+                # the same layout through the real Driver.start_benchmark: what does every StartWorker carry?
+                items.append(start_item("w%d" % n, inp["hosts"], [_leaf(inp["n"])], {"src": "start"}))
+                n_start += 1
+                out.add_case(("start", inp["hosts"], inp["n"]), nontrivial=sum(h["cores"] for h in inp["hosts"]) > 1 and inp["n"] > 1)
         if b0 == 0:
             direct = [it for it in items if it["origin"]["src"] == "direct" and "crash" not in it and it["kind"] == "alloc" and len(it["s"]) == 2]
             mid = direct[len(direct) // 3] if direct else items[0]
@@ -209,10 +271,12 @@ def run(ctx, out):
         _report(validate(items, out), out)
     out.exhaustive = True
     out.note("leg S2C: %d TLC input states run on Allocator / calculate_worker_assignments, %d schedules also through the real task filter" % (len(inputs), n_filt))
+    out.note("leg S2C: %d runs of the real Driver.start_benchmark (every TLC host/core/client layout, every 10th TLC schedule on a seeded layout)" % n_start)
+    out.extra["start_benchmark_runs"] = n_start + (300 if ctx.quick else 3000)
     out.extra["schedules_through_real_filter"] = n_filt
     out.extra["filtered_schedules_with_empty_parallel"] = n_empty
     # ---- seeded random larger shapes
-    rnd_items = random_items(ctx.seed + 202, 240 if ctx.quick else 3000, 300 if ctx.quick else 4000)
+    rnd_items = random_items(ctx.seed + 202, 240 if ctx.quick else 3000, 300 if ctx.quick else 4000, 300 if ctx.quick else 3000)
     for it in rnd_items:
         out.add_case(_case_of(it))
     big = max((it for it in rnd_items if it["kind"] == "alloc" and "crash" not in it), key=lambda it: len(it["s"]))
@@ -227,6 +291,14 @@ def _report(bad, out):
             detail += " schedule=%s steps=%s progress_entries=%s driver_walk=%s" % (it["s"], len(it.get("jps", [])) - 1, len(it.get("tpj", [])), it.get("progress"))
             if it["origin"]["src"] == "task-filter":
                 detail += " (schedule produced by the real task filter: %s %s)" % (it["origin"]["mode"], rs.filter_strings(it["origin"]["filters"]))
+        elif it["kind"] == "start":
+            detail += " Driver.start_benchmark hosts=%s clients=%s: StartWorker messages carry the rows of clients %s, calculate_worker_assignments says %s; created=%s" % (
+                it["hosts"],
+                it.get("n"),
+                [w["rows"] for w in it.get("sent", [])],
+                [w for a in it.get("a", []) for w in a["workers"] if w],
+                it.get("created"),
+            )
         else:
             detail += " hosts=%s n=%s assignment=%s" % (it["hosts"], it["n"], it.get("a"))
         out.violations.append(Violation(",".join(clauses), _case_of(it), signature=_sig(it, clauses), detail=detail.strip()))
@@ -242,6 +314,11 @@ def replay(ctx, case):
         it = alloc_item("replay", objs, o)
         print("schedule given to Allocator: %s" % it["s"])
         print("steps=%s progress_entries=%s driver_walk=%s" % (len(it.get("jps", [])) - 1, it.get("tpj"), it.get("progress")))
+    elif case["kind"] == "start":
+        it = start_item("replay", case["hosts"], case["s"], case["origin"])
+        print("hosts=%s clients=%s" % (case["hosts"], it.get("n")))
+        print("created: %s" % it.get("created"))
+        print("StartWorker rows: %s ; calculate_worker_assignments: %s" % ([w["rows"] for w in it.get("sent", [])], it.get("a")))
     else:
         it = assign_item("replay", case["hosts"], case["n"])
         print("assignment: %s" % it.get("a"))
